@@ -51,6 +51,20 @@ def worker_env(repo, extra=None):
     return env
 
 
+WALL_BACKSTOP_S = int(os.environ.get("VERIF_WALL_BACKSTOP_S", "14400"))
+_CLK = os.sysconf("SC_CLK_TCK")
+
+
+def proc_cpu_s(pid):
+    """user+system CPU seconds of a worker (and of children it has waited for); 0 when /proc cannot be read"""
+    try:
+        f = open("/proc/%d/stat" % pid).read()
+        f = f[f.rindex(")") + 2:].split()
+        return (int(f[11]) + int(f[12]) + int(f[13]) + int(f[14])) / _CLK
+    except Exception:
+        return 0.0
+
+
 def run_specs(specs, repo, workdir, jobs, default_timeout):
     """Run worker specs with at most `jobs` concurrent subprocesses. Returns list of (spec, result|None, why)."""
     pending = list(enumerate(specs))
@@ -72,11 +86,14 @@ def run_specs(specs, repo, workdir, jobs, default_timeout):
             i, spec, p, op, t0, tmo, errf = item
             rc = p.poll()
             if rc is None:
-                if time.time() - t0 > tmo:
+                # watchdog: the budget is CPU time of the shard (a hang in a loop burns CPU whatever the load; wall time
+                # on a loaded machine says nothing), with a generous wall-clock backstop for a process that only waits
+                cpu = proc_cpu_s(p.pid)
+                if cpu > tmo or time.time() - t0 > max(WALL_BACKSTOP_S, 4 * tmo):
                     p.kill()
                     p.wait()
                     errf.close()
-                    results[i] = (spec, None, "watchdog after %ds" % tmo)
+                    results[i] = (spec, None, "watchdog after %ds cpu / %ds wall" % (cpu, time.time() - t0))
                 else:
                     still.append(item)
                 continue
@@ -168,10 +185,9 @@ def do_check(mod, prop, tier, seed, repo, workdir, jobs):
         if orders and "preload_networks" not in d and i % 3:
             d["preload_networks"] = orders[(i % 3 - 1 + seed) % len(orders)]
         specs.append(d)
-    # wall-clock watchdog per shard: only there to end a hang (its firing is "inconclusive", never a verdict), so it is generous --
-    # quick shards take seconds on an idle machine but were seen to take minutes at load average > 200
-    floor = 3600 if tier == "quick" else 8 * 3600
-    default_timeout = max(floor, getattr(mod, "TIMEOUT", {}).get(tier, floor))
+    # per-shard watchdog, in CPU seconds of the shard (see run_specs): only there to end a hang; its firing is "inconclusive",
+    # never a verdict. Quick shards use seconds of CPU; their wall time was seen to reach minutes at load average > 200
+    default_timeout = getattr(mod, "TIMEOUT", {}).get(tier, 900 if tier == "quick" else 6 * 3600)
     if os.environ.get("VERIF_WATCHDOG_S"):
         default_timeout = int(os.environ["VERIF_WATCHDOG_S"])
     results = run_specs(specs, repo, workdir, jobs, default_timeout)
